@@ -449,3 +449,50 @@ def shrink(lines, failing, budget=120):
                 break
             n = min(n * 2, len(cur))
     return cur
+
+
+class Session:
+    """interactive line-protocol session with the harness: one line out, one line back"""
+
+    def __init__(self, exe, env=None):
+        e = dict(os.environ)
+        e.setdefault('ASAN_OPTIONS', 'detect_leaks=1:abort_on_error=0:exitcode=99:allocator_may_return_null=1')
+        e.setdefault('UBSAN_OPTIONS', 'print_stacktrace=1:halt_on_error=1')
+        if env:
+            e.update(env)
+        self.p = subprocess.Popen([exe], stdin=subprocess.PIPE, stdout=subprocess.PIPE, stderr=subprocess.PIPE, text=True, env=e, bufsize=1)
+        self.lines = []
+        self.outs = []
+        self.dead = False
+
+    def send(self, line):
+        self.lines.append(line)
+        if self.dead:
+            self.outs.append('<died>')
+            return '<died>'
+        try:
+            self.p.stdin.write(line + '\n')
+            self.p.stdin.flush()
+            o = self.p.stdout.readline()
+        except (BrokenPipeError, OSError):
+            o = ''
+        if o == '':
+            self.dead = True
+            o = '<died>'
+        o = o.rstrip('\n')
+        self.outs.append(o)
+        return o
+
+    def close(self):
+        """returns (returncode, stderr)"""
+        try:
+            self.p.stdin.close()
+        except OSError:
+            pass
+        try:
+            err = self.p.stderr.read()
+            rc = self.p.wait(timeout=120)
+        except Exception:
+            self.p.kill()
+            rc, err = -9, 'timeout'
+        return rc, err
